@@ -30,7 +30,7 @@ class ArrayPressureProfile(PressureProfile):
 
     def write(self, output):
         pressure = super().write(output)
-
+        pressure.write_array('array', self.pressure_profile)
         return pressure
 
     @classmethod
